@@ -4,6 +4,7 @@ import (
 	"errors"
 	"fmt"
 	"io"
+	"math/rand"
 	"strings"
 	"time"
 
@@ -260,6 +261,7 @@ func runPipeline(p *harness.Proxy, binary bool, cmds []wire.Cmd, closedLoop bool
 // anything else: a reply that is only delivered once further input arrives is a violation.
 func runNoSentinel(p *harness.Proxy, binary bool, cmds []wire.Cmd) c08Outcome {
 	p.ResetStores()
+	erng := rand.New(rand.NewSource(int64(len(cmds))*7919 + int64(hashStr(kindSeq(cmds)))))
 	port := 0
 	if len(cmds) > 0 {
 		port = cmds[0].Port
@@ -272,6 +274,20 @@ func runNoSentinel(p *harness.Proxy, binary bool, cmds []wire.Cmd) c08Outcome {
 	cl.Watchdog = 8 * time.Second
 	m := model.New(p.L1.Now)
 	for i, c := range cmds {
+		// keys that live only in L2 make the L1/L2 orchestrators answer out of key order
+		if p.Cfg.L2 && p.Cfg.L1Kind == "std" {
+			if erng.Intn(3) == 0 {
+				ks := keyAlphabet("std")
+				p.L1.Evict(ks[erng.Intn(len(ks))])
+			}
+			if c.IsGet() && len(c.Keys) > 1 {
+				for _, k := range c.Keys[:len(c.Keys)-1] {
+					if k != c.Keys[len(c.Keys)-1] && erng.Intn(2) == 0 {
+						p.L1.Evict(k)
+					}
+				}
+			}
+		}
 		exp := expected(m, c, binary)
 		if err := cl.Send(cl.Encode(c)); err != nil {
 			return c08Outcome{Err: err}
@@ -375,8 +391,8 @@ func checkC08(tier, replay string) int {
 					var cmds []wire.Cmd
 					var out c08Outcome
 					if mode == "await-each" {
-						o.AllowMulti = false
 						o.MaxLen = 25
+						o.Ops = []string{"set", "set", "set", "add", "replace", "append", "prepend", "delete", "touch", "get", "get", "mget", "mget", "mget", "mget", "gat", "setq"}
 						cmds = g.sequence(o)
 						out = runNoSentinel(p, binary, cmds)
 					} else {
